@@ -7,6 +7,7 @@ A call history `[.ret ⟨some r₁, none⟩, …, .ret ⟨some rₙ, none⟩, .r
 says: the successive calls of `Read` returned `r₁ … rₙ` with a nil error and then `io.EOF`.
 -/
 import Biogo.Proofs.Fasta
+import Biogo.Proofs.Fastq
 import Biogo.Generated.Seqio
 import Biogo.Generated.Alphabets
 
@@ -77,5 +78,82 @@ example :
                  .ret ⟨some ⟨[], [], []⟩, none⟩, .ret ⟨none, some .eof⟩]) := by decide
 
 end fasta
+
+/-! ### FASTQ -/
+
+section fastq
+open Biogo.Fastq
+
+/-- **FASTQ write-then-read** (`linear.QSeq`).  Any list of well-formed records with scores
+    inside the printable range of the Phred-offset encoding `enc` (Sanger, Illumina 1.3, 1.5,
+    1.8, 1.9 — `wfFastq` is false for the others), written by `Writer.Write` with or without
+    the identifier on the `+` line (`qid`), is read back by a reader whose template has the
+    same encoding as the same records in the same order — identical name, description,
+    letters and scores — followed by `io.EOF`; for either behaviour of the underlying
+    `io.Reader` at the end of the input, and whatever the two conversion tables are. -/
+theorem fastq_roundtrip (tabs : QTables) (enc : Encoding) (qid eofWithData : Bool) (recs : List QRec)
+    (hwf : ∀ r ∈ recs, wfFastq enc r = true) :
+    readAll ⟨.qseq enc, tabs⟩ eofWithData (writeAll tabs qid enc {} recs).1.bytes
+      = recs.map (fun r => Call.ret ⟨some r, none⟩) ++ [Call.ret ⟨none, some .eof⟩] := by
+  have hb : (writeAll tabs qid enc {} recs).1.bytes = recs.flatMap (renderQ tabs qid enc) := by
+    simpa [Sink.bytes] using (writeAll_spec tabs qid enc {} recs).1
+  have hok : ∀ r ∈ recs, RecOK (qlineOf tabs enc) r := fun r hr => (recOK_of_wf tabs enc r (hwf r hr)).1
+  rw [hb, renders_read ⟨.qseq enc, tabs⟩ eofWithData (qlineOf tabs enc) recs _ hok (renders_writer tabs qid enc recs hok)]
+  congr 1
+  apply List.map_congr_left
+  intro r hr
+  simp only [retOK]
+  rw [built_qseq tabs enc r (recOK_of_wf tabs enc r (hwf r hr)).2]
+
+/-- **FASTQ write-then-read** (plain `linear.Seq`): the writer sees every score as
+    `seq.DefaultQphred` in the Sanger encoding (`ofPlain`); a reader with a `linear.Seq`
+    template returns the same names, descriptions and letters. -/
+theorem fastq_roundtrip_plain (tabs : QTables) (qid eofWithData : Bool) (recs : List QRec)
+    (hwf : ∀ r ∈ recs, wfFastqPlain r = true) :
+    readAll ⟨.seq, tabs⟩ eofWithData (writeAll tabs qid .sanger {} (recs.map ofPlain)).1.bytes
+      = recs.map (fun r => Call.ret ⟨some r, none⟩) ++ [Call.ret ⟨none, some .eof⟩] := by
+  have hb : (writeAll tabs qid .sanger {} (recs.map ofPlain)).1.bytes
+      = (recs.map ofPlain).flatMap (renderQ tabs qid .sanger) := by
+    simpa [Sink.bytes] using (writeAll_spec tabs qid .sanger {} (recs.map ofPlain)).1
+  have hok : ∀ r ∈ recs.map ofPlain, RecOK (qlineOf tabs .sanger) r := by
+    intro r hr
+    obtain ⟨r0, h0, rfl⟩ := List.mem_map.mp hr
+    exact recOK_of_wfPlain tabs r0 (hwf r0 h0)
+  rw [hb, renders_read ⟨.seq, tabs⟩ eofWithData (qlineOf tabs .sanger) _ _ hok
+    (renders_writer tabs qid .sanger _ hok), List.map_map]
+  congr 1
+  apply List.map_congr_left
+  intro r hr
+  simp only [Function.comp, retOK]
+  rw [built_seq tabs r (hwf r hr)]
+
+/-- **Byte count (FASTQ).**  The `n` returned by `Write` is the number of bytes it put on the
+    writer — for every record, encoding and `+`-line style. -/
+theorem fastq_write_count (tabs : QTables) (qid : Bool) (enc : Encoding) (sink : Sink) (r : QRec) :
+    (write tabs qid enc sink r).1.out.size = sink.out.size + (write tabs qid enc sink r).2 :=
+  write_count tabs qid enc sink r
+
+/-- scores at both ends of each printable range survive the trip through their byte -/
+theorem fastq_score_range (tabs : QTables) (enc : Encoding) (lo hi off : UInt8)
+    (h : phredRange enc = some (lo, hi, off)) (q : UInt8) (h1 : lo ≤ q) (h2 : q ≤ hi) :
+    decode tabs enc (encode tabs enc q) = q :=
+  (decode_encode tabs enc lo hi off h q h1 h2).1
+
+-- non-vacuity: a well-formed record whose quality string starts with `@` (Q = 31) and one
+-- that starts with `+` (Q = 10), an empty record, scores at both ends of the range
+example : wfFastq .sanger ⟨[64, 43], [100], [97, 99], [31, 10]⟩ = true ∧
+    wfFastq .sanger ⟨[120], [], [], []⟩ = true ∧ wfFastq .illumina1_5 ⟨[120], [], [97, 99], [2, 62]⟩ = true ∧
+    wfFastq .sanger ⟨[120], [], [97, 99], [0, 93]⟩ = true := by decide
+
+-- the statement computes on them (both `+`-line styles; `@+` is the quality string of the first record)
+example :
+    readAll ⟨.qseq .sanger, ⟨id, id⟩⟩ false
+      (writeAll ⟨id, id⟩ true .sanger {} [⟨[64, 43], [100], [97, 99], [31, 10]⟩, ⟨[120], [], [], []⟩]).1.bytes
+    = [.ret ⟨some ⟨[64, 43], [100], [97, 99], [31, 10]⟩, none⟩, .ret ⟨some ⟨[120], [], [], []⟩, none⟩,
+       .ret ⟨none, some .eof⟩] ∧
+    (writeAll ⟨id, id⟩ false .sanger {} [⟨[64, 43], [100], [97, 99], [31, 10]⟩]).1.bytes
+    = [64, 64, 43, 32, 100, 10, 97, 99, 10, 43, 10, 64, 43, 10] := by decide
+
+end fastq
 
 end Biogo.Properties.C01
